@@ -510,6 +510,9 @@ func TestVerif_C04(t *testing.T) {
 		vc04rConcurrentBuilders(rep, vc04lSeed(), ads, sizes, rounds, []int{16, 2})
 	}
 
+	// H. one bucket whose temporary key/value stream is several MiB (long keys / under-declared counts), three insertion orders
+	vc04rBigSpill(rep, vc04lSeed(), vc04raAdapter(), thorough, false) // the shape that cannot be mined: thorough tier
+
 	vc04lWideProbe(rep)
 	if err := cases.Write(); err != nil {
 		t.Fatal(err)
